@@ -16,6 +16,7 @@ func init() {
 			ruleB3(c)
 			ruleB4(c)
 			ruleB5(c)
+			ruleB6(c)
 			ruleS2S3(c)
 		},
 		explanation: "Decides the structure of split synchronization: every slice expression of the sender's chunk walk is proved in bounds by an inductive argument over the retry/advance loop (n <= len(list) holds on every edge into the loop head, including the edge that carries the recalculated chunk sizes); each list's chunk upper bound and advance lower bound are the same value and the 'more' flag is exactly 'something is left of either list' for those bounds; a non-final chunk whose reply carries updates or a different 'more' fails the sync before the lists are advanced; a plugin whose synchronization fails is never activated (both activation sites); the receiver appends both lists to the stored ones in order under the stub lock, takes-and-clears the stored request, calls the handler exactly once with the concatenation and wires its results to the response.",
@@ -310,6 +311,16 @@ func ruleB5(c *Ctx) {
 	}
 	c.ok("B5", "deliverSync/take-clear", ds.Pos(), tookOK && clearOK, "deliverSync takes the stored request and clears it under the stub lock",
 		"the stored request is not cleared (or not under the lock): a later synchronization delivers stale objects again")
+	// a partial request does not survive the session: close() clears it
+	clM := m.method(pkgStub, "stub", "close")
+	okReset := false
+	for _, fs := range m.fieldStores(clM, stT, "syncReq") {
+		if isNilConst(fs.Store.Val) {
+			okReset = true
+		}
+	}
+	c.ok("B5", "close/clears-partial", clM.Pos(), okReset, "the chunks collected so far are discarded when the session ends",
+		"stub.close() does not clear the stored partial request: after an aborted split synchronization the next session's handler is given the stale chunks in front of the runtime's state")
 	// handler called exactly once on every path, with the concatenated lists
 	var hcalls []*ssa.Call
 	for _, ci := range calls(ds) {
@@ -363,4 +374,124 @@ func ruleB5(c *Ctx) {
 		pos = hcalls[0].Pos()
 	}
 	c.ok("B5", "deliverSync/handler-once", pos, bad == "", "deliverSync calls the Synchronize handler exactly once with the complete lists and returns its results", bad)
+}
+
+// ruleB6: the structural pieces of the retry loop's termination / clean failure.
+func ruleB6(c *Ctx) {
+	m := c.M
+	c.rule("B6", "clean failure of the retry: recalcObjsPerSyncMsg returns an error (so that synchronize closes the plugin and fails) when the error is not a resource-exhausted/oversized-message error, when the chunk is already at or below the minimum, and when the reported lengths are unusable; the shrink factor is clamped to a constant below 1; synchronize returns the error and closes the plugin", 4)
+	f := m.fn(pkgAdapt, "recalcObjsPerSyncMsg")
+	pods, ctrs := f.Params[0], f.Params[1]
+	// (1) floor test: pods+ctrs <= const  -> non-nil error
+	floorOK, clampOK, codeOK := false, false, false
+	for _, b := range f.Blocks {
+		iff := lastIf(b)
+		if iff == nil {
+			continue
+		}
+		bo, ok := iff.Cond.(*ssa.BinOp)
+		if !ok {
+			continue
+		}
+		failing := func(blk *ssa.BasicBlock) bool {
+			if r, ok := blk.Instrs[len(blk.Instrs)-1].(*ssa.Return); ok {
+				for _, v := range returnValues(r, 2) {
+					if isNilConst(v) {
+						return false
+					}
+				}
+				return true
+			}
+			return false
+		}
+		if sum, ok := bo.X.(*ssa.BinOp); ok && sum.Op == token.ADD && ((sum.X == ssa.Value(pods) && sum.Y == ssa.Value(ctrs)) || (sum.X == ssa.Value(ctrs) && sum.Y == ssa.Value(pods))) {
+			if k, ok := constInt(bo.Y); ok && k > 0 && (bo.Op == token.LEQ || bo.Op == token.LSS) && failing(b.Succs[0]) {
+				floorOK = true
+			}
+		}
+		// (3) status code test
+		if call, ok := bo.X.(*ssa.Call); ok {
+			if g := m.callee(call.Common()); g != nil && g.Name() == "Code" && bo.Op == token.NEQ && failing(b.Succs[0]) {
+				if k, ok := constInt(bo.Y); ok && k == 8 { // codes.ResourceExhausted
+					codeOK = true
+				}
+			}
+		}
+		// (2) factor clamp: factor > const(<1) -> factor = const
+		if bo.Op == token.GTR {
+			if cst, ok := bo.Y.(*ssa.Const); ok && cst.Value != nil {
+				if fv, ok := floatVal(cst); ok && fv > 0 && fv < 1 {
+					clampOK = true
+				}
+			}
+		}
+	}
+	// raising a count to a constant minimum is decided on the total, not per kind
+	okTotal := true
+	nReset := 0
+	for _, b := range f.Blocks {
+		for _, in := range b.Instrs {
+			ph, ok := in.(*ssa.Phi)
+			if !ok {
+				continue
+			}
+			for i, e := range ph.Edges {
+				if k, isC := constInt(e); isC && k > 0 {
+					nReset++
+					pred := ph.Block().Preds[i]
+					onSum := false
+					// the nearest condition: the one that selects this edge
+					if cds := controls(pred); len(cds) > 0 {
+						if bo, ok := normCond(cds[0]).V.(*ssa.BinOp); ok {
+							if sum, ok := bo.X.(*ssa.BinOp); ok && sum.Op == token.ADD {
+								onSum = true
+							}
+						}
+					}
+					if !onSum {
+						okTotal = false
+					}
+				}
+			}
+		}
+	}
+	c.ok("B6", "recalc/reset-on-total", f.Pos(), okTotal && nReset > 0, "a count is raised to the minimum only when the total number of objects per message fell below the minimum",
+		"a count is raised to a constant under a condition on that count alone: the kind with few large objects can never be sent fewer than that many at a time, so a transmissible state fails to synchronize")
+	c.ok("B6", "recalc/floor", f.Pos(), floorOK, "recalcObjsPerSyncMsg gives up when the chunk is already at the minimum", "no failing branch under pods+ctrs <= minimum: a state that cannot be transmitted is retried forever instead of failing the registration")
+	c.ok("B6", "recalc/clamp", f.Pos(), clampOK, "the shrink factor is clamped to a constant below 1", "the shrink factor is not clamped below 1: a retry may not shrink the message")
+	c.ok("B6", "recalc/code", f.Pos(), codeOK, "only resource-exhausted errors are retried", "errors other than resource-exhausted are retried (or the code test is missing)")
+	// synchronize: on recalc's error -> close + return the error
+	syn := m.method(pkgAdapt, "plugin", "synchronize")
+	closeM := m.method(pkgAdapt, "plugin", "close")
+	okS := false
+	for _, ci := range m.callsTo(syn, f) {
+		call := ci.(*ssa.Call)
+		for _, fb := range errFailBlocks(call) {
+			closed, ret := false, false
+			for _, cc := range m.callsTo(syn, closeM) {
+				if fb.Dominates(cc.Block()) {
+					closed = true
+				}
+			}
+			for _, r := range returnsOf(syn) {
+				if fb.Dominates(r.Block()) {
+					for _, v := range returnValues(r, 1) {
+						if !isNilConst(v) {
+							ret = true
+						}
+					}
+				}
+			}
+			okS = closed && ret
+		}
+	}
+	c.ok("B6", "synchronize/give-up", syn.Pos(), okS, "when the chunk cannot be shrunk any further synchronize closes the plugin and returns the error", "the failing branch of the recalculation does not close the plugin and return an error")
+}
+
+func floatVal(c *ssa.Const) (float64, bool) {
+	if c.Value == nil {
+		return 0, false
+	}
+	f, _ := constantFloat(c)
+	return f, true
 }
